@@ -60,6 +60,11 @@ def Warn.name : Warn → String
 
 /-! ## `_directive_re` as a scanner -/
 
+/-- longest prefix whose elements satisfy `p`, and the rest (a greedy `[class]*`) -/
+def spanP {α : Type} (p : α → Bool) : List α → List α × List α
+  | [] => ([], [])
+  | x :: xs => if p x then ((spanP p xs).1.cons x, (spanP p xs).2) else ([], x :: xs)
+
 /-- `[#0 +'I-]` -/
 def isFlag (c : Char) : Bool :=
   c == '#' || c == '0' || c == ' ' || c == '+' || c == '\'' || c == 'I' || c == '-'
@@ -72,7 +77,7 @@ def isPriConv (c : Char) : Bool := I18n.Spec.Printf.priConvChars.contains c
 
 /-- `( [0-9]+[$] )?` -/
 def scanIndex (s : List Char) : Option (List Char) × List Char :=
-  match s.span Char.isDigit with
+  match spanP Char.isDigit s with
   | (d :: ds, '$' :: rest) => (some (d :: ds), rest)
   | _ => (none, s)
 
@@ -84,7 +89,7 @@ def scanWidth (s : List Char) : Width × List Char :=
     (.star i, rest')
   | c :: _ =>
     if c.isDigit && c != '0' then
-      let (ds, rest) := s.span Char.isDigit
+      let (ds, rest) := spanP Char.isDigit s
       (.num ds, rest)
     else (.none, s)
   | [] => (.none, s)
@@ -96,7 +101,7 @@ def scanPrec (s : List Char) : Prec × List Char :=
     let (i, rest') := scanIndex rest
     (.star i, rest')
   | '.' :: rest =>
-    let (ds, rest') := rest.span Char.isDigit
+    let (ds, rest') := spanP Char.isDigit rest
     (.num ds, rest')
   | _ => (.none, s)
 
@@ -151,7 +156,7 @@ def scanBody (s : List Char) : Option (Body × List Char) :=
 /-- one directive, the `%` already consumed -/
 def scanDirective (s : List Char) : Option (Directive × List Char) :=
   let (index, s1) := scanIndex s
-  let (flags, s2) := s1.span isFlag
+  let (flags, s2) := spanP isFlag s1
   let (width, s3) := scanWidth s2
   let (prec, s4) := scanPrec s3
   match scanBody s4 with
@@ -171,7 +176,7 @@ def scanAll : Nat → List Char → List Item × Bool
         let (items, complete) := scanAll fuel rest
         (.dir d :: items, complete)
     else
-      let (lit, rest) := (c :: cs).span (fun x => x != '%')
+      let (lit, rest) := spanP (fun x => x != '%') (c :: cs)
       let (items, complete) := scanAll fuel rest
       (.lit lit :: items, complete)
 
